@@ -30,6 +30,7 @@ StateOK(t, e) ==
     /\ t.hs # "NOSESSION" => Rank(e.role, t.hs) >= e.rank                                   \* HsMonotone
     /\ (phase = "healed" /\ t.ev = "state") => t.hc = 1 /\ t.err = 0                         \* Completes
     /\ (phase = "final" /\ t.ev = "state") => t.hc = 1 /\ t.err = 0
+    /\ (phase = "stormend" /\ t.ev = "state") => t.hc = 1 /\ t.err = 0                       \* lost and replayed records do not end the session
 Seen(t, e) == [e EXCEPT !.rank = IF t.hs = "NOSESSION" THEN @ ELSE Rank(e.role, t.hs)]
 
 TNew == /\ l <= Len(TraceLog) /\ Line.ev = "new"
@@ -53,7 +54,7 @@ TDeliver ==
 TSend ==
     /\ l <= Len(TraceLog) /\ Line.ev = "send" /\ Line.ep \in DOMAIN eps
     /\ StateOK(Line, eps[Line.ep])
-    /\ phase \in {"healed", "final"} => Line.accepted = 1
+    /\ phase \in {"healed", "final", "storm"} => Line.accepted = 1
     /\ eps' = [eps EXCEPT ![Line.ep] = [Seen(Line, @) EXCEPT !.sent = @ + (IF Line.accepted = 1 /\ Line.len > 0 THEN 1 ELSE 0)]]
     /\ UNCHANGED phase /\ l' = l + 1
 
@@ -70,7 +71,7 @@ TOtherEp ==
     /\ UNCHANGED phase /\ l' = l + 1
 
 TMark == /\ l <= Len(TraceLog) /\ Line.ev = "mark"
-         /\ phase' = IF Line.tag \in {"healed", "final", "replays"} THEN Line.tag ELSE phase
+         /\ phase' = IF Line.tag \in {"healed", "final", "replays", "storm", "stormend"} THEN Line.tag ELSE phase
          /\ UNCHANGED eps /\ l' = l + 1
 
 TDel == /\ l <= Len(TraceLog) /\ Line.ev = "del"
